@@ -26,6 +26,9 @@ func init() {
 		ruleW1(c, "C09.A10")
 		ruleL2(c, "C09.A11")
 		ruleX4(c, "C09.A12")
+		// an inode released before the transaction ends is no longer dropped from the cache when the transaction
+		// aborts: what was changed in it in place survives the error reply
+		ruleT2(c, "C09.A13")
 	}
 }
 
